@@ -12,6 +12,8 @@ _drv = None
 
 def _mods():
     from simpletal import simpleTAL, simpleTALES
+    import talgen
+    talgen.CV_FACTORY[0] = simpleTALES.ContextVariable
     return simpleTAL, simpleTALES
 
 
@@ -73,6 +75,8 @@ def canon_value(v, depth=0):
         return ["l", [canon_value(x, depth + 1) for x in v]]
     if isinstance(v, simpleTALES.RepeatVariable):
         return ["rv", v.position]
+    if isinstance(v, simpleTALES.ContextVariable):
+        return ["cv", canon_value(v.rawValue(), depth + 1)]
     if isinstance(v, simpleTAL.SubTemplate):
         return ["macro", v.startRange, v.endRangeSymbol]
     if isinstance(v, dict):
